@@ -74,7 +74,10 @@ func (t *Type) ReadFrom(r io.Reader) (n int64, err error) {
 	if hasTargetName {
 		t.TargetName = new(Message)
 		n4, err := t.TargetName.ReadFrom(r)
-		return n1 + n2 + n3 + n4, fmt.Errorf("read target name error: %w", err)
+		if err != nil {
+			return n1 + n2 + n3 + n4, fmt.Errorf("read target name error: %w", err)
+		}
+		return n1 + n2 + n3 + n4, nil
 	}
 	return n1 + n2 + n3, nil
 }
